@@ -58,7 +58,8 @@ def main():
         else:
             shutil.rmtree(tree, ignore_errors=True)
     print(json.dumps(out, indent=1))
-    ok = out["demo_clean"][0] == 0 and out["demo_changed"][0] == 1 and "44 passed" in out["baseline"]
+    ok = out["demo_clean"][0] == 0 and out["demo_changed"][0] == 1 and "44 passed" in out["baseline"] \
+        and out["apply"] == 0
     caught = out[f"check_{prop}"][0] == 1
     print("SEED", "valid" if ok else "INVALID", "|", "CAUGHT" if caught else "MISSED")
 
